@@ -204,4 +204,24 @@ theorem validateSignatures_of_each (verify : Verifier) (rb : Bundle) (hk : rb.ke
   obtain ⟨key, sigBytes, raw, hl, hp, hd, hr, hv⟩ := hval σ hσ
   simp only [hl, hp, hd, hr, hv]
 
+/-- forward: in-range fields, root signer name, decodable and short RDATAs ⇒ `make_raw_rrsig` succeeds -/
+theorem makeRawRrsig_of {sig : Signature} {keys : List Key} {rdatas : List Bytes}
+    (h1 : sig.typeCovered < 65536) (h2 : sig.algorithm < 256) (h3 : inRange 8 sig.labels = true)
+    (h4 : inRange 32 sig.originalTtl = true) (h5 : inRange 32 (tsSeconds sig.expiration) = true)
+    (h6 : inRange 32 (tsSeconds sig.inception) = true) (h7 : inRange 16 sig.keyTag = true)
+    (hroot : sig.signersName = ".") (hrd : keys.mapM keyToRdata = .ok rdatas)
+    (hlen : ∀ r ∈ rdatas, r.length < 65536) :
+    makeRawRrsig sig keys = .ok (rawRrsigOf sig.typeCovered sig.algorithm sig.labels.toNat
+      sig.originalTtl.toNat (tsSeconds sig.expiration).toNat (tsSeconds sig.inception).toNat
+      sig.keyTag.toNat rdatas) := by
+  have hany : (rdatas.any fun r => decide (65536 ≤ r.length)) = false := by
+    rw [Bool.eq_false_iff]
+    intro h
+    simp only [List.any_eq_true, decide_eq_true_eq] at h
+    obtain ⟨r, hr, hl⟩ := h
+    have := hlen r hr
+    omega
+  unfold makeRawRrsig
+  simp [h1, h2, h3, h4, h5, h6, h7, dn2wire, hroot, hrd, hany, bind, Except.bind, pure, Except.pure]
+
 end Kskm
